@@ -70,6 +70,7 @@ Qed.
 Section Step.
 Variable nested : sm -> Z -> sm * list event.
 Hypothesis nested_quiet : forall m now, should m = false -> quiet (snd (nested m now)).
+Hypothesis nested_unrequested : forall m now, should m = false -> should (fst (nested m now)) = false.
 
 Lemma off_idle_quiet m : quiet (off_if_idle m).
 Proof. unfold off_if_idle. destruct (engaged m); repeat constructor. Qed.
@@ -90,10 +91,12 @@ Proof.
       apply quiet_app; split; [apply off_default_quiet|]. constructor; [exact I | exact Hq].
     + destruct (is_state sh n); [|cbn; split; [repeat constructor | exact Hs]].
       pose proof (nested_quiet (next_state m n) now' Hs) as Hn.
-      destruct (nested (next_state m n) now') as [m1 e1].
-      assert (Hs1 : should (m1 <| should := should (next_state m n) |>) = false) by (cbn; exact Hs).
+      pose proof (nested_unrequested (next_state m n) now' Hs) as Hu.
+      destruct (nested (next_state m n) now') as [m1 e1]. cbn [fst snd] in Hn, Hu.
+      set (m1r := if engaged m1 then m1 <| should := should (next_state m n) |> else m1).
+      assert (Hs1 : should m1r = false) by (unfold m1r; destruct (engaged m1); cbn; [exact Hs | exact Hu]).
       destruct (IH _ Hs1) as [Hq Hs'].
-      destruct (run_actions sh nested r (m1 <| should := should (next_state m n) |>)) as [m2 e2].
+      destruct (run_actions sh nested r m1r) as [m2 e2].
       cbn in *. split; [|exact Hs'].
       apply quiet_app; split; [apply off_idle_quiet|].
       apply quiet_app; split; [apply off_default_quiet|].
@@ -146,16 +149,6 @@ Proof.
 Qed.
 End Step.
 
-Theorem exec_quiet fuel : forall m now, should m = false -> quiet (snd (exec sh body fuel m now)).
-Proof.
-  induction fuel as [|f IH]; intros m now Hs; cbn [exec].
-  - repeat constructor.
-  - apply exec_step_quiet; assumption.
-Qed.
-
-(* ------------------------------------------------------------------ *)
-(* B. the request flag: true iff engage() since the previous iteration *)
-
 Lemma exec_step_should nested m now :
   should (fst (exec_step sh body nested m now)) = false.
 Proof.
@@ -165,6 +158,17 @@ Proof.
     rewrite andb_false_r in E. discriminate.
   - repeat break_match; reflexivity.
 Qed.
+
+Theorem exec_quiet fuel : forall m now, should m = false -> quiet (snd (exec sh body fuel m now)).
+Proof.
+  induction fuel as [|f IH]; intros m now Hs; cbn [exec].
+  - repeat constructor.
+  - apply exec_step_quiet; try assumption.
+    intros m' now' Hs'. destruct f; [exact Hs' | apply exec_step_should].
+Qed.
+
+(* ------------------------------------------------------------------ *)
+(* B. the request flag: true iff engage() since the previous iteration *)
 
 Lemma exec_should fuel m now : should (fst (exec sh body (S fuel) m now)) = false.
 Proof. cbn [exec]. apply exec_step_should. Qed.
@@ -285,8 +289,8 @@ Proof.
   - destruct (is_state sh n); [|exfalso; eapply not_ok_err; exact Hok].
     pose proof (nested_one (next_state m n) now') as Hn.
     destruct (nested (next_state m n) now') as [m1 e1].
-    match goal with |- context [run_actions sh nested r ?mm] =>
-      specialize (IH mm); destruct (run_actions sh nested r mm) as [m2 e2] end.
+    set (m1r := if engaged m1 then m1 <| should := should (next_state m n) |> else m1) in *.
+    specialize (IH m1r). destruct (run_actions sh nested r m1r) as [m2 e2].
     cbn in *.
     apply ok_app in Hok. destruct Hok as [Hidle Hok]. apply ok_app in Hok. destruct Hok as [_ Hok].
     apply ok_cons in Hok. destruct Hok as [_ Hok]. apply ok_cons in Hok. destruct Hok as [_ Hok].
@@ -296,7 +300,8 @@ Proof.
     destruct (off_idle_counts m) as [-> ->]. destruct (off_default_counts n) as [-> ->].
     cbn. rewrite !ncalls_app, !nnow_app.
     rewrite Hn; [| apply HP, He | discriminate | exact Hok1].
-    rewrite IH; [lia | intros _; apply HP, He | exact Hok2].
+    rewrite IH; [lia | | exact Hok2].
+    unfold m1r. destruct (engaged m1) eqn:E1; cbn; [intros _; apply HP, He | congruence].
   - assert (HP' : engaged (done sh m) = true -> should (done sh m) = true)
       by (rewrite done_engaged; discriminate).
     specialize (IH (done sh m) HP').
